@@ -159,6 +159,12 @@ h("c07_range_header_step", ["C07", "C08"], "quick", "offset,size any u64 with si
   "a request issued from state Init carries Range: bytes=offset-(offset+size-1), exactly one request",
   RR, [STUB_REQWEST, STUB_FORMAT])
 
+for nm in ("s123", "s221"):
+    h("c17_http_read_chunks_entry_" + nm, ["C17", "C07", "C08"], "quick",
+      "3 chunks with the sizes in the name (concrete), offsets < 40 symbolic: ANY order, gaps, adjacency; retry settings symbolic",
+      "through the reader's entry (HttpReader::read_chunk_stream, what read_chunks boxes): the chunk list is taken as given -- the first request starts at the FIRST LISTED chunk and spans its maximal adjacent run -- and the reader's retry settings are handed on to the request",
+      ["HttpReader::read_chunk_stream", "HttpReader::retries", "HttpReader::retry_delay"] + CR, [STUB_REQWEST, STUB_INNER])
+
 # ---------------------------------------------------------------------------
 # C08
 # ---------------------------------------------------------------------------
@@ -232,7 +238,7 @@ prop("C06",
      outside="more than 2 descriptors; header-region reads (try_init), the in-place scan and the CLI flow incl. block devices (F3 of the property text) are not executable here; 'a chunk found in a seed is never requested' is the composition of this step with the lookup/remove step (entry removed when written)",
      assumptions=["clone-index entries are injected directly; that feeding a chunk removes its entry is c02_index_lookup_step / c13_lookup_then_write_step"])
 prop("C17",
-     outside="protobuf decoding (unknown fields), the chunk_data_offset + archive_offset addition inside try_init, real decompression, HTTP body accumulation; more than 2 descriptors",
+     outside="protobuf decoding (unknown fields) and the header checksum computation (environment in the try_init harness), real decompression; more than 2 descriptors in try_init / 3 in chunk_stream",
      assumptions=[])
 for nm, u in (("both_raw_comp", "quick"), ("both_comp_raw", "quick"), ("both_nocomp", "quick"), ("first_only", "quick"),
               ("second_only", "quick"), ("second_only_raw", "quick"), ("none", "quick")):
@@ -247,6 +253,17 @@ for nm in ("tft", "ftt", "ttt", "fft", "ttf"):
       ["Archive::chunk_stream", "ChunkIndex::contains", "StreamUntilFirstError::poll_next"], [MODEL_MAP, "recording ArchiveReader mock that answers each range with a slice of the requested length"], heavy=True)
 h("c17_pre_header_magics", ["C17", "C15"], "quick", "every byte string of length 0..16", "verify_pre_header accepts exactly b\"BITA1\\0\" and the legacy b\"\\0BITA1\" prefixes, rejects everything else (incl. < 6 bytes) without panicking", ["Archive::verify_pre_header"])
 
+STUB_TRY_INIT = "try_init: Blake2 over the header and protobuf decoding cannot be encoded; in the mirror (cfg(kani)) the checksum comparison is skipped and the decoded dictionary is the one the harness injects; everything try_init does before the checksum test and WITH the decoded dictionary runs as written; recording ArchiveReader mock (state in plain statics)"
+h("c17_try_init_post_decode", ["C17", "C15"], "quick",
+  "dictionary with 2 descriptors and 2 rebuild indexes: chunk data offset, relative offsets (<= 2^62 each), stored/source sizes, rebuild indexes, hash length, source size: all symbolic",
+  "try_init reads exactly the header region (pre-header, then dictionary + offset + checksum: nothing inferred from sizes it has not read); descriptors come out in DICTIONARY order with sizes/checksums verbatim and absolute offset = stored chunk-data offset + relative offset; rebuild order verbatim and accepted iff every index points at a descriptor; hash length, source size, header size reported verbatim",
+  ["Archive::try_init", "source_order_is_valid", "chunker_config_from_params", "compression_from_dictionary"], [STUB_TRY_INIT], heavy=True)
+h("c15_try_init_offsets_any", ["C15"], "quick", "as c17_try_init_post_decode with chunk data offset and relative offsets ANY u64",
+  "no panic / overflow on any offsets an untrusted dictionary can carry", ["Archive::try_init"], [STUB_TRY_INIT], heavy=True)
+h("c15_try_init_dictionary_size_any", ["C15"], "quick", "pre-header with a valid magic and ANY 8-byte dictionary size",
+  "no panic / overflow between the pre-header and the second read, which asks for exactly dictionary + 8 + 64 bytes at offset 14 -- or the archive is refused (found F14)",
+  ["Archive::try_init", "Archive::verify_pre_header"], [STUB_TRY_INIT])
+
 # ---------------------------------------------------------------------------
 # C02 / C13 / C05
 # ---------------------------------------------------------------------------
@@ -254,7 +271,7 @@ prop("C02",
      outside="re-chunking of seeds with the archive's configuration, hashing of seed chunks and every CLI stage; Blake2 collisions on truncated hashes; the hit path of CloneOutput::feed as one unit (see C13)",
      assumptions=["a seed can change WHETHER a chunk's bytes come from the archive, never WHICH bytes, provided equal truncated hashes mean equal bytes (collision freeness, not decidable)"])
 prop("C13",
-     outside="CloneOutput::feed's hit path as one unit does not get through CBMC (> 28 GB in propositional reduction for every variant tried); it is decomposed into the real lookup, the real write loop, both in feed's order, and feed's miss path -- the 4 lines of glue on the hit path are read, not executed. In-place stripping, reorder_in_place and the source-length bound need multi-offset indexes and the reorder planner (not applicable, as C03)",
+     outside="CloneOutput::feed over the REAL write loop as one unit does not get through CBMC (nested coroutines; > 28 GB for every variant tried); it is decided compositionally: feed's own text over a scripted write loop (c13_feed_glue_*), the real write loop on its own (c13_write_offset_step, c05_write_offset_fault_step), both real functions in feed's order (c13_lookup_then_write_step). In-place stripping, reorder_in_place and the source-length bound need multi-offset indexes and the reorder planner (not applicable, as C03)",
      assumptions=["invariant Inv: every clone-index entry is a true (hash,size,offset) of the source that has not been written yet"])
 prop("C05",
      outside="the whole 're-run completes' half (rescan + reorder + fetch: C03/C09 territory, not executable as a whole); faults inside reorder_in_place; more than one destination offset in the fault harness",
@@ -271,15 +288,44 @@ h("c13_lookup_then_write_step", ["C13", "C02"], "quick", "index: the entry (key 
 h("c13_write_offset_step", ["C13"], "quick", "1..2 destination offsets < 2^40, chunk of 1..3 bytes: symbolic",
   "per offset, in order: one seek to exactly that offset followed by all of the chunk's bytes, once", ["CloneOutput::write_offset"], [MOCK_IO])
 h("c13_feed_miss_empty_index", ["C13", "C02"], "quick", "empty index, hash length 0..4, arbitrary chunk hash", "feed() writes nothing and reports 0 when the chunk is not in the index", ["CloneOutput::feed", "ChunkIndex::remove"], [MODEL_MAP, MOCK_IO])
+STUB_WRITE_LOOP = "feed glue harnesses run in clone_output_glue.rs, a generated second copy of clone_output.rs whose write_offset BODY is a harness script (records its arguments, answers Ok(any count) or Err); feed's text is the repository's; the real write loop is decided by c13_write_offset_step / c05_write_offset_fault_step"
+for nm, d in (("o1_h1", "1 offset, hash length 1"), ("o2_h1", "2 offsets, hash length 1"), ("o2_h2", "2 offsets, hash length 2"),
+              ("o1_h2_fail", "1 offset, hash length 2, the write loop fails"), ("o2_h1_fail", "2 offsets, hash length 1, the write loop fails")):
+    h("c13_feed_glue_" + nm, ["C13", "C02", "C05"] if "fail" in nm else ["C13", "C02"], "quick",
+      d + " (concrete); stored key, fed chunk's 8-byte hash, offsets (any u64), size, the write loop's byte count: symbolic; a second unrelated entry",
+      "feed itself on its HIT and miss path over the real index lookup: the write loop is entered exactly once iff the truncated hashes agree, with exactly the entry's offsets (all, in order) and the fed chunk; its byte count / error is handed on unchanged (a failed write never becomes success); the entry is gone afterwards, a second feed of the same chunk writes nothing, unrelated entries stay; the output is never touched outside the write loop",
+      ["CloneOutput::feed", "ChunkIndex::remove", "ChunkIndex::contains"], [MODEL_MAP, STUB_WRITE_LOOP])
 h("c05_write_offset_fault_step", ["C05", "C13"], "quick", "one destination; the k-th seek fails, the k-th write fails, or the k-th write accepts only 0..2 bytes: k and the prefix symbolic; chunk 1..3 bytes",
   "a failed or torn write/seek at any point => Err; Ok only when every byte reached the output contiguously from the destination (write_all's retry included); 0 bytes accepted => WriteZero error",
   ["CloneOutput::write_offset"], [MOCK_IO])
 
 # ---------------------------------------------------------------------------
+# C03 (components): overlap query of the planner's layout map; the executor on scripted plans
+# ---------------------------------------------------------------------------
+prop("C03",
+     outside="the reorder PLANNER (ChunkIndex::reorder_ops / build_reorder_ops: DFS over std containers, sort, Vec::insert) and strip_chunks_already_in_place (Vec::remove at a symbolic position) do not get through CBMC and are NOT executed: the executor scenarios take plans that were derived by hand from the planner's algorithm for concrete layouts, so a planner that emits a wrong plan is outside the claim; executor plans with more than one operation (two or more do not finish: values that live in the coroutine are symbolic to CBMC) -- so the buffered-chunk path (StoreInMem then Copy from memory) and cyclic moves are NOT covered; chunks > 4 bytes, files > 12 bytes; the CLI flow (rescan, resize of the output file)",
+     assumptions=["the layout map holds pairwise disjoint locations (first locations of distinct chunks of one chunked file)",
+                  "std BTreeMap replaced by a sorted-vector model with the same range/insert/remove semantics (mirror edit)",
+                  "executor scenarios: write_offset is the scripted one of clone_output_glue.rs (it stores the bytes into the mock file), the planner is scripted; reads go through tokio's real seek/read_exact futures"])
+h("c03_overlap_query_exact", ["C03"], "quick", "layout of 3 chunks at ANY pairwise disjoint positions (offsets < 2^40, sizes 1..2^24); query range ANY (offset < 2^40, size 1..2^24)",
+  "iter_overlapping yields exactly the chunks that share at least one byte with the range (each once, highest offset first): no chunk a move would overwrite is missed, none is invented",
+  ["ChunkLocationMap::iter_overlapping", "ChunkLocationMap::insert", "ChunkOffset::end", "ChunkOffset::cmp"])
+h("c03_layout_map_insert_remove", ["C03"], "quick", "2 disjoint locations in either order, symbolic",
+  "remove takes out exactly the given (offset,size) location; a removed location is no longer reported by the overlap query", ["ChunkLocationMap::remove", "ChunkLocationMap::iter_overlapping"])
+EXEC = ["CloneOutput::reorder_in_place", "tokio::io::AsyncReadExt::read_exact", "tokio::io::AsyncSeekExt::seek"]
+STUB_PLANNER = "planner scripted: bool-guarded prologues (cfg(kani), off by default) in strip_chunks_already_in_place and reorder_ops hand the executor a concrete plan; " + STUB_WRITE_LOOP.replace("records its arguments, answers Ok(any count) or Err", "here it stores the chunk's bytes into the mock file at every offset it is given, or fails at a symbolic call")
+for nm, d, c in (("min", "one chunk moved: A(2)@3 -> @0", ""),
+              ("min_faults", "as min; the k-th read or the k-th write fails (k symbolic, incl. none)", "; a failed read or write makes the run fail (never a success with a wrong file)"),
+              ("two_dests", "one chunk copied to two destinations: D(2)@6 -> @8,@10; a second chunk still to be fetched stays in the clone index", "")):
+    h("c03_exec_" + nm, ["C03", "C05"] if "faults" in nm else ["C03"], "quick", d + "; layout and plan concrete, EVERY byte of the 12-byte prior file content symbolic",
+      "whole run of the real reorder_in_place: after a run that reports success every moved chunk's ORIGINAL bytes are at all of its destinations (a chunk buffered by StoreInMem is written from the buffer, not re-read after it was overwritten), bytes outside the destinations are untouched, moved chunks have left the clone index, the moved-byte count is right" + c,
+      EXEC, [MODEL_MAP, STUB_PLANNER], heavy=True)
+
+# ---------------------------------------------------------------------------
 # C15
 # ---------------------------------------------------------------------------
 prop("C15",
-     outside="the protobuf decoder and Blake2 over symbolic bytes (prost's per-byte decoding into Vecs does not finish), try_init as a whole (async_trait reader + header arithmetic; the dictionary-size arithmetic is read, not executed), lzma/zstd/brotli decoders, info_cmd printing; parameters > 9 in the `next` harnesses (constructors at full width); debug-profile semantics (overflow checks on): failures that only wrap in release are reported as such in DESIGN.md",
+     outside="the protobuf decoder and Blake2 over symbolic bytes (prost's per-byte decoding into Vecs does not finish; try_init runs with both as environment), the allocation of dictionary-size bytes by the readers' read_at, lzma/zstd/brotli decoders, info_cmd printing; parameters > 9 in the `next` harnesses (constructors at full width); debug-profile semantics (overflow checks on): failures that only wrap in release are reported as such in DESIGN.md",
      assumptions=["Kani checks every reachable panic, arithmetic overflow, out-of-bounds index and unwrap as a property, so a harness that merely runs a consumer on unconstrained values decides 'no panic within the bound'"])
 h("c15_params_any", ["C15"], "quick", "all six chunker parameters and both compression fields: any u32/i32",
   "chunker_config_from_params / compression_from_dictionary never panic; unknown enum values are errors", ["chunker_config_from_params", "compression_from_dictionary"])
@@ -287,6 +333,8 @@ h("c15_source_order_valid", ["C15", "C17"], "quick", "3 descriptors, 2 rebuild i
 h("c15_server_misbehaves_range_request", ["C15"], "quick", "open body at first<8, sent<=4, missing 1..4; one fragment of 0..6 bytes that stays inside what is missing; error/clean end; re-request reply arbitrary",
   "no panic/overflow in the request state machine", ["HttpRangeRequest::poll_read", "HttpRangeRequest::poll_read_fail"], [STUB_REQWEST, STUB_FORMAT, STUB_SLEEP])
 h("c15_server_sends_too_much", ["C15"], "quick", "as above with a fragment LONGER than what is missing", "a server that sends more than the range asked for must not panic the request state machine", ["HttpRangeRequest::poll_read_fail"], [STUB_REQWEST, STUB_FORMAT, STUB_SLEEP])
+h("c15_single_declared_length_any", ["C15"], "quick", "offset<16, size 1..5, one arbitrary reply; the reply's declared Content-Length: ANY u64 or none",
+  "the one-shot read behind read_at (header region over HTTP) never panics and never sizes an allocation by what the server declares", ["HttpRangeRequest::single", "HttpRangeRequest::single_fail"], [STUB_REQWEST, STUB_FORMAT, STUB_SLEEP])
 h("c15_chunk_reader_zero_size", ["C15"], "quick", "2 chunks, the first with stored size 0; one answer of the inner request", "a descriptor with stored size 0 must not panic the chunk reader", CR, [STUB_REQWEST, STUB_INNER])
 h("c15_accepted_params_run_rollsum", ["C15"], "quick", "RollSum: min, max, window 0..9, filter bits any u32; 6 symbolic bytes",
   "every parameter set chunker_config_from_params ACCEPTS constructs and runs one next() without a panic and never yields an empty chunk", ["chunker_config_from_params"] + RHC + RS)
